@@ -100,7 +100,7 @@ type GSchema struct {
 	Subscription string
 	SchemaBlock  bool
 	SchemaDirs   string
-	BadRoot      string // fault: schema block names a missing type
+	BadRoot      string   // fault: schema block names a missing type
 	Extra        []string // raw chunks: extensions of built-in (prelude) types
 	Faults       []string
 	idx          map[string]*GType
@@ -702,7 +702,7 @@ func GenLiteral(r *Rng, s *GSchema, t *TRef, depth int, allowNull bool) string {
 	case "Float":
 		return Pick(r, []string{"1.5", "0.0", "3", "-2.25", "1e3"})
 	case "String":
-		return Pick(r, []string{`""`, `"a"`, `"hello world"`, `"q\"uote"`, `"""block"""`, `"é"`})
+		return Pick(r, []string{`""`, `"a"`, `"hello world"`, `"q\"uote"`, `"""block"""`, `"é"`, "\"\"\"\n  two\n  lines\n\"\"\""})
 	case "Boolean":
 		return Pick(r, []string{"true", "false"})
 	case "ID":
